@@ -218,8 +218,9 @@ func c19Unit(c *RunCtx, unit int) {
 	}
 	cfg := world.Cfg{Modules: shuffled(r, mods), Mount: pickS(r, "/auth", ""), JSON: r.Intn(2) == 0, Err500: r.Intn(2) == 0, ProfileKeys: []string{"name"},
 		PreserveFields: [][]string{nil, {"name", "email"}, {"zip", "name", "email", "city"}}[r.Intn(3)], Localizer: []string{"", "empty", "partial"}[r.Intn(3)], NilSessionState: r.Intn(3) == 0}
-	cfg.AppendedRules = unit%2 == 1 // the application appended rules of its own to the shipped rulesets
-	cfg.SeparateEmail = unit%3 == 2 // a username site: a new account has no e-mail address of its own yet
+	cfg.AppendedRules = unit%2 == 1    // the application appended rules of its own to the shipped rulesets
+	cfg.SeparateEmail = unit%3 == 2    // a username site: a new account has no e-mail address of its own yet
+	cfg.AllowWSPasswords = unit%4 == 3 // the application's password rule allows blanks (pass-phrases)
 	regWL := []string{"email", "password"}
 	switch r.Intn(4) {
 	case 3:
@@ -242,7 +243,7 @@ func c19Unit(c *RunCtx, unit int) {
 	for _, p := range existing {
 		w.Store.Put(&world.User{PID: p, Email: p, Password: sim.Hash4("Original1!pw"), Confirmed: true, Arbitrary: map[string]string{"name": "Owner"}})
 	}
-	pwRule := ruleSpec{MinLen: 8, MinNum: 1, MinSym: 1, MinUp: 1, MinLower: 1}
+	pwRule := ruleSpec{MinLen: 8, MinNum: 1, MinSym: 1, MinUp: 1, MinLower: 1, AllowWS: cfg.AllowWSPasswords}
 	pidRule := ruleSpec{Required: true, Match: "email"}
 	n := 0
 	var hist []string
@@ -268,6 +269,11 @@ func c19Unit(c *RunCtx, unit int) {
 		}
 		pw := pickS(r, "Valid1!password", "Valid1!password", "Valid1!password", "short1!", "nouppercase1!", "NOLOWERCASE1!", "NoDigits!!!", "NoSymbols11", "With Space1!", strings.Repeat("Aa1!", 18)+"x", strings.Repeat("Aa1!", 18), "Aa1!aaaa", "",
 			"$2a$04$N9qo8uLOickgx2ZMRZoMyeIjZAgcfl7p92ldGxad68LJZdL17lhWy", "$2a$10$R9h/cIPz0gi.URNNX3kh2OPST9/PgBkqquzi.Ss7KIUgO2t0jWMUW") // passphrases that happen to be well-formed bcrypt hash strings
+		if cfg.AllowWSPasswords && i%3 == 0 && pw != "" {
+			// pass-phrases with blanks at the ends and in the middle: the password is what was submitted, byte for byte
+			pw = []string{" " + pw + "  ", pw + "\t", "\n" + pw, pw[:4] + " " + pw[4:] + " "}[(i/3)%4]
+			c.Stats.Count("registrations-with-blanks-in-the-password")
+		}
 		conf := pw
 		if r.Intn(8) == 0 {
 			conf = pickS(r, "", pw+"x", "different1!A")
